@@ -1381,6 +1381,35 @@ def rule_t6(P):
     return findings, obl, {"t6_all_source_axes_readers": n}
 
 
+def rule_t12(P):
+    """`does not mint name ids the source already uses` (D10, repaired in 88e77c5): the allocator of font-specific name ids in
+    StaticMetadata::new starts above EVERY id among the source's name records.  Structural clause: the initial value of the allocator
+    is computed from the parameter map keyed by NameKey (all records), and from no map that was re-keyed by the string (such a map keeps
+    one id per distinct string - which one depends on hash order - so its maximum can be below an id the source uses)."""
+    from prog import def_sites, backward_slice
+    findings, obl = [], []
+    ks = [k for k in P.bodies if k.startswith("fontir::ir::static_metadata::") and k.endswith("::new") and "StaticMetadata" in (P.bodies[k].get("impl_self") or "")]
+    if len(ks) != 1:
+        raise E5Error(f"T12: StaticMetadata::new not found: {ks}")
+    b = P.bodies[ks[0]]
+    # the allocator: a u16 local that is captured by the registering closure and initialised from a max() over name ids
+    cands = [int(i) for i, v in b.get("names", {}).items() if b["locals"][int(i)] == "u16" and "name_id" in v]
+    if len(cands) != 1:
+        raise E5Error(f"T12: the name id allocator variable of StaticMetadata::new was not identified (u16 locals named *name_id*: {cands})")
+    sl, _ = backward_slice(b, cands, def_sites(b))
+    tys = [b["locals"][x] for x in sl]
+    by_key = any(("HashMap<fontir::ir::static_metadata::NameKey, std::string::String>" in t or "Keys<'_, fontir::ir::static_metadata::NameKey, std::string::String>" in t) for t in tys)
+    by_string = [t for t in tys if re.search(r"(HashMap|BTreeMap|IndexMap|Values|Keys|Iter)<('_, )?std::string::String, fontir::ir::static_metadata::NameKey", t)]
+    ok = by_key and not by_string
+    obl.append({"rule": "T12", "inst": "the font-specific name id allocator starts from the maximum over all source name records (map keyed by NameKey), not from a map re-keyed by string", "ok": ok})
+    if not ok:
+        findings.append({"rule": "T12", "key": "T12|StaticMetadata::new", "msg": "StaticMetadata::new computes the start of the name id allocator "
+                         + ("from a map keyed by the name STRING (" + by_string[0][:90] + "): it keeps one id per distinct string, and which one survives depends on hash order, " if by_string else "without looking at the source's name records: ")
+                         + "so a minted axis/instance name id can collide with - and overwrite - a record the source already uses (ids differ from run to run)",
+                         "loc": P.body_file_line(ks[0]), "detail": {}})
+    return findings, obl, {"t12_allocator_slice_locals": len(sl)}
+
+
 def rule_t11(P):
     """Glyph ids in every emitted table index ONE list: the final `glyph_order` (after `.notdef` synthesis, non-export pruning and
     bracket glyphs).  The front ends also publish a *preliminary* order that can differ in length and positions.  Layering clause:
@@ -2278,6 +2307,45 @@ def rule_l9(P, tables):
     if n_sw < 4:
         raise E5Error(f"L9: only {n_sw} branches in the read_dir loop (6 counted by hand)")
     return findings, obl, {"l9_loop_blocks": len(loop), "l9_branches": n_sw, "l9_deciders": len(seen)}
+
+
+def rule_l10(P, tables):
+    """Container / entry-point equivalence, disk side: the same Glyphs text compiles from memory (Font::load_from_string) and from a
+    path (Font::load).  The path route may read the file it is given and the members of a .glyphspackage; every OTHER file it
+    consulted would be invisible to the in-memory route.  Census: functions of glyphs-reader that touch the file system directly and
+    are reachable from the front end's constructors must be the audited loaders."""
+    from common import norm_fn
+    findings, obl = [], []
+    allowed = {e["fn"]: e["reason"] for e in tables.get("e5_tables", {}).get("disk_route_io_allowed", [])}
+    roots = [k for k in P.bodies if re.match(r"glyphs2fontir::source::\{impl#\d+\}::(new|new_from_memory)$", k)]
+    if len(roots) < 2:
+        raise E5Error(f"L10: Glyphs source constructors not found: {roots}")
+    reach = P.reachable(roots)
+    n = 0
+    seen = set()
+    for fn in sorted(reach):
+        if not fn.startswith("glyphs_reader::") or fn not in P.bodies:
+            continue
+        io = sorted({t for s in P.iter_sites(fn) if s["kind"] in ("call", "fnref") for t in s["targets"]
+                     if t.startswith("std::fs::") or re.match(r"std::path::\{impl#\d+\}::(exists|is_dir|is_file|try_exists|metadata|read_dir|read_link|canonicalize|symlink_metadata)$", t)})
+        if not io:
+            continue
+        rk = P.bodies[fn].get("root") or fn
+        isf = (P.bodies.get(rk) or {}).get("impl_self")
+        nf = f"{isf}::{norm_fn(rk).rsplit('::', 1)[-1]}" if isf else norm_fn(rk)
+        if nf in seen:
+            continue
+        seen.add(nf)
+        n += 1
+        ok = nf in allowed
+        obl.append({"rule": "L10", "inst": f"{nf} touches the file system ({io[0].rsplit('::', 1)[-1]}, ..): " + (f"audited ({allowed[nf][:60]})" if ok else "NOT audited"), "ok": ok})
+        if not ok:
+            findings.append({"rule": "L10", "key": f"L10|{nf}", "msg": f"{fn} reads the file system ({', '.join(i.rsplit('::', 2)[-1] for i in io[:3])}) on the route that loads a Glyphs source from a path, "
+                             f"and is not one of the audited loaders: a file consulted beside the source cannot be seen by the in-memory route (Font::load_from_string), so the same text "
+                             f"compiles to different fonts from disk and from memory", "loc": P.body_file_line(fn), "detail": {"io": io}})
+    if n < 2:
+        raise E5Error(f"L10: only {n} file-system touching functions found on the Glyphs load route (loaders renamed?)")
+    return findings, obl, {"l10_disk_route_io_functions": n}
 
 
 def rule_g4(P):
